@@ -239,6 +239,7 @@ impl ToStr_ for u32 { #[verifier::external_body] fn to_str_(&self) -> (r: Str) {
 impl ToStr_ for u8 { #[verifier::external_body] fn to_str_(&self) -> (r: Str) { unimplemented!() } }
 impl ToStr_ for usize { #[verifier::external_body] fn to_str_(&self) -> (r: Str) { unimplemented!() } }
 impl ToStr_ for OverflowError { #[verifier::external_body] fn to_str_(&self) -> (r: Str) { unimplemented!() } }
+impl ToStr_ for CheckedMultiplyRatioError { #[verifier::external_body] fn to_str_(&self) -> (r: Str) { unimplemented!() } }
 impl ToStr_ for bool { #[verifier::external_body] fn to_str_(&self) -> (r: Str) { unimplemented!() } }
 impl ToStr_ for Uint64 { #[verifier::external_body] fn to_str_(&self) -> (r: Str) { unimplemented!() } }
 impl ToStr_ for Uint128 { #[verifier::external_body] fn to_str_(&self) -> (r: Str) { unimplemented!() } }
